@@ -130,6 +130,8 @@ def go_type(t, mod):
         if e.kind == "int" and e.bits == 8: return "Ptr"
         if e.kind == "array" and e.elem.kind == "int" and e.elem.bits == 8: return "Ptr"
         if e.kind in ("func", "void", "array", "literalstruct"): raise Unsupported("pointer to " + ty_str(e))
+        if e.kind == "named" and (struct_go_name(e.name) is None or mod.structs.get(e.name) is None):
+            return "*Opaque"   # a pointer to an object whose layout is not extracted: only passed along
         return "*" + go_type(e, mod)
     raise Unsupported("type " + ty_str(t))
 
@@ -156,6 +158,7 @@ class Module:
         self.funcs = {}     # name -> Func
         self.decls = {}     # name -> (ret T, [param T], varargs)
         self.globals = {}   # name -> text
+        self.opaque_globals = set()
 
 
 def split_top(s, sep=","):
@@ -342,6 +345,9 @@ class Emitter:
             self.externs.add("cstr")
             return 'c_cstr(%d)' % self.strconst(m.group(2))
         if tok.startswith("@"):
+            if go_type(t, self.mod) == "*Opaque":
+                self.mod.opaque_globals.add(tok[1:])
+                return "c_global_%s()" % san(tok[1:])
             raise Unsupported("global operand " + tok)
         raise Unsupported("operand " + tok)
 
@@ -698,6 +704,9 @@ type Ptr struct {
 	O int64
 }
 
+// an object whose layout is not extracted (only its address is passed along)
+type Opaque struct{ id int64 }
+
 // ---- primitives with contracts in /verif/contracts/trusted/c_runtime.spec (never executed) ----
 func c_padd(p Ptr, d int64) Ptr         { return Ptr{p.B, p.O + d} }
 func c_pblk(b *Blk) Ptr                { return Ptr{b, 0} }
@@ -797,6 +806,11 @@ def main():
         except Unsupported as e:
             out.append("// extern %s not expressible: %s" % (name, e))
             report["opaque"][name] = "signature: %s" % e
+    og = set()
+    for _, m in mods:
+        og |= m.opaque_globals
+    for g in sorted(og):
+        out.append('func c_global_%s() *Opaque { panic("extern") }' % san(g))
     with open(os.path.join(a.out, "ddprt.go"), "w") as fh:
         fh.write("\n".join(out) + "\n")
     with open(os.path.join(a.out, "go.mod"), "w") as fh:
